@@ -65,6 +65,7 @@ def write_schema_text(repo):
     if not os.path.exists(p) or open(p, "rb").read() != raw:
         with open(p, "wb") as f:
             f.write(raw)
+    C.want_gen(p, raw)
     return hashlib.sha256(data).hexdigest(), len(data)
 
 
